@@ -467,26 +467,28 @@ def lambertw(ctx, z, k=0):
     if not ctx.isnormal(z):
         return _lambertw_special(ctx, z, k)
     prec = ctx.prec
-    ctx.prec += 20 + ctx.mag(k or 1)
-    wp = ctx.prec
-    tol = wp - 5
-    w, done = _lambertw_series(ctx, z, k, tol)
-    if not done:
-        # Use Halley iteration to solve w*exp(w) = z
-        two = ctx.mpf(2)
-        for i in xrange(100):
-            ew = ctx.exp(w)
-            wew = w*ew
-            wewz = wew-z
-            wn = w - wewz/(wew+ew-(w+two)*wewz/(two*w+two))
-            if ctx.mag(wn-w) <= ctx.mag(wn) - tol:
-                w = wn
-                break
-            else:
-                w = wn
-        if i == 100:
-            ctx.warn("Lambert W iteration failed to converge for z = %s" % z)
-    ctx.prec = prec
+    try:
+        ctx.prec += 20 + ctx.mag(k or 1)
+        wp = ctx.prec
+        tol = wp - 5
+        w, done = _lambertw_series(ctx, z, k, tol)
+        if not done:
+            # Use Halley iteration to solve w*exp(w) = z
+            two = ctx.mpf(2)
+            for i in xrange(100):
+                ew = ctx.exp(w)
+                wew = w*ew
+                wewz = wew-z
+                wn = w - wewz/(wew+ew-(w+two)*wewz/(two*w+two))
+                if ctx.mag(wn-w) <= ctx.mag(wn) - tol:
+                    w = wn
+                    break
+                else:
+                    w = wn
+            if i == 100:
+                ctx.warn("Lambert W iteration failed to converge for z = %s" % z)
+    finally:
+        ctx.prec = prec
     return +w
 
 @defun_wrapped
